@@ -135,6 +135,15 @@ CLAIMED = {
    note=TB + "The wildmatch library is outside the model (the matcher is a parameter of allows_spec; the scenarios use patterns with a hand-written meaning). Symlinked working files, the clonefile/copy-on-write path and `checkout --to/--ours/--theirs` are not generated. Interpretation I1: a same-oid pointer in another spelling counts as the recorded pointer.",
    technique="Lean 4 proof (case analysis of the checkout decision over the C07 decoder model; filter and fetch set lemmas) + differential correspondence in process (Allows) and through real-binary scenarios (run)",
    ref="§5 C04"),
+ "C05": dict(
+   text="Lean theorems: (set logic of prune, for ALL flag combinations, local/retained/reachable/verified sets) nothing a retention task named is ever deleted, only local objects are deleted, --dry-run deletes nothing, with --verify-remote a deleted object was verified on the remote or "
+        "(without --verify-unreachable) is unreachable, one reachable unverified candidate halts prune before any deletion; window boundaries inclusive and zero days = off; (git-log parser) for ANY number of file sections with arbitrary other lines and interleavings of +/-/context lines the scanner "
+        "returns exactly the decoding of each section's wanted side, in order, and a section spelling a valid pointer yields that pointer under its file name. Correspondence: scenarios with the real binary and real git over dated histories (merges incl. evil resolutions, tags, detached HEAD), partial pushes, "
+        "stashes, a second worktree, staged/re-edited/removed files x attribute spellings x diff.noprefix/mnemonicprefix x retention settings x fetchexclude x flags (incl. --verify-remote with objects lost on the server): the must-survive set is computed from plumbing only and compared with what prune deleted; "
+        "prune's own trace (RETAIN/VERIFIED) + harness-computed local/reachable sets are fed to the model's prune and the deleted set / halt compared; real `git log` outputs of every scenario (incl. noprefix, mnemonicprefix, -U1, --cc) go through the real parser (hook) and the model's.",
+   note=TB + "What git prints for `log -p`, `diff-index`, `worktree list`, `for-each-ref` is git's (2.39.5); the retention tasks themselves (which refs/commits are scanned) are tied by the scenario oracle, not modelled in Lean; C-quoted file names are outside the parser model; 'unpushed' = objects introduced by a commit reachable from a local branch, tag or HEAD and not from the prune remote's refs (the manual's reading, DESIGN I7); date windows are exercised by dating commits (no faketime), boundaries kept 6 h away in the oracle. D11, D25, D28, D29 fixed in /repo.",
+   technique="Lean 4 proof (set-level case analysis of prune; induction over log sections for the parser state machine) + scenario correspondence with a plumbing-only oracle + trace-fed differential check of the set logic + parser differential on real git output",
+   ref="§5 C05"),
 }
 PENDING_REASON = "check not built yet in this session (build in progress, see DESIGN.md §10); not claimed until its theorems and correspondence run"
 ALL = ["C%02d" % i for i in range(1, 21)]
